@@ -391,3 +391,31 @@ Proof.
 Qed.
 
 End Items.
+
+(* ------------------------------------------------------------ never run, never a success *)
+Lemma retry_of_pos (c : ucfg) : 1 <= fst (retry_of c).
+Proof. unfold retry_of. destruct (u_retry c) as [[n w]|]; cbn [fst]; [apply Nat.le_max_l|apply le_n]. Qed.
+
+(* an item for which no callback was ever made (no exec attempt, no fallback) has an error in its
+   slot: "batch stopped", or an error matching the context's - for every budget setting (a budget
+   below one means one attempt), mode, number of workers and schedule *)
+Lemma never_run_error_lemma (o : oracle) c nd (items : list val) stopmode nworkers qcap :
+  has_exec c = true ->
+  forall s0 sched,
+    let s := brun o c nd items stopmode qcap (binit items nworkers s0) sched in
+    (mpc s = MClose \/ mpc s = MRet) ->
+    forall i, i < length items -> il s i = [] ->
+      exists e, slot_at s i = Some (VRes VNil (Some e)).
+Proof.
+  intros Hx s0 sched s Hm i Hi Hil.
+  destruct (all_settled_lemma o c nd items stopmode nworkers qcap Hx s0 sched Hm) as [_ Hall].
+  destruct (Hall i Hi) as [v [Hv Hs]]. fold s in Hv, Hs. rewrite Hil in Hs.
+  destruct Hs as [[_ [->| ->]]|[[r [Hr _]]|[_ Hc]]].
+  - eexists. exact Hv.
+  - eexists. exact Hv.
+  - exfalso. cbn in Hr. pose proof (retry_of_pos c) as Hp. unfold N in Hr.
+    destruct (fst (retry_of c)) eqn:E; [inversion Hp|discriminate].
+  - unfold ctx_error_slot in Hc.
+    destruct v as [| | | | |v' oe|]; try discriminate.
+    destruct v'; try discriminate. destruct oe as [e|]; [|discriminate]. eexists. exact Hv.
+Qed.
